@@ -646,6 +646,27 @@ def runFrom (env : Env) (pre : List PreOp) (polys : List (List Int)) (mapping : 
   | .ok o => (st.tr, "ok", some o)
   | .error e => (st.tr, e, none)
 
+/-! ### `PowerBasis.GenPower(n, lazy, eval)` on a fresh basis -/
+
+/-- `pb := NewPowerBasis(ct, basis); pb.GenPower(n, lazy, eval)`: `(trace, status, stored powers sorted by index)` -/
+def runGen (env : Env) (n : Nat) (lazy : Bool) (inLevel : Nat) (inScale : Nat) (x : List Int) :
+    List String × String × List (Nat × Opd) :=
+  let m : M Unit := do
+    setP 1 { level := inLevel, scale := inScale, deg := 1, val := x }
+    genPowerTop env (2 * n + 8) n lazy
+  let (r, st) := (ExceptT.run m).run ({} : St)
+  let pb := (List.range (n + 1)).filterMap fun k => (st.pb.find? (·.1 == k)).map fun e => (k, e.2)
+  match r with
+  | .ok _ => (st.tr, "ok", pb)
+  | .error e => (st.tr, e, pb)
+
+/-- the check of `lazy_genpower_degrees`: from a fresh basis at a level high enough, `GenPower(n, lazy)` succeeds —
+    in particular no multiplication is refused for a total degree above 2, i.e. every stored power used as a factor
+    was relinearised to degree 1 beforehand when it had degree 2 — and every stored power has degree at most 2 -/
+def genPowerCheck (cheb : Bool) (n : Nat) (lazy : Bool) : Bool :=
+  let r := runGen { t := 0, q := [], cheb := cheb, slots := 0 } n lazy 64 0 []
+  r.2.1 == "ok" && r.2.2.all (fun e => e.2.deg ≤ 2) && (r.2.2.find? (·.1 == n)).isSome
+
 /-! ## composite circuits and changes of basis: bookkeeping -/
 
 /-- `inverse.IntervalNormalization`: the number of compression steps `n = ⌈log2max / log2(2.45)⌉` for
